@@ -56,9 +56,9 @@ inductive Act where
 
 def at_ (p : Pc) (t : Th) : Bool := t.pc == p
 
-/-- tokens numbered 1000 and above carry the tree's id and a node id that is not in the tree (any peer can send
-that): `TreeNodeFromTree` fails and `TransmitMsg` returns "No TreeNode defined in this tree here" -/
-def badTok (tok : Nat) : Bool := 1000 ≤ tok
+/-- tokens numbered 1000 to 1999 carry the tree's id and a node id that is not in the tree (any peer can send
+that; 2000 and above: the instances of `churn`, ordinary runs that the observation does not list): `TreeNodeFromTree` fails and `TransmitMsg` returns "No TreeNode defined in this tree here" -/
+def badTok (tok : Nat) : Bool := 1000 ≤ tok && tok < 2000
 
 /-- thread `t` is inside the creation of instance `tok` (listed, constructor not yet returned) -/
 def regTok (tok : Nat) (t : Th) : Bool := (t.pc == .set || t.pc == .bind) && t.tok == tok
@@ -213,14 +213,18 @@ namespace Drv
 structure State where
   s : St := {}
   store : Store.Drv.State := {}   -- cases of the class `store` drive the tree store on its own
+  churned : Nat := 0              -- instances started and finished by `churn` so far (tokens 2000, 2001, …)
 
 def init : State := {}
 
 def sortNat (l : List Nat) : List Nat := (l.toArray.qsort (· < ·)).toList
 
+/-- the instances of `churn` (tokens 2000 and above) are not listed in the observation -/
+def shown (l : List Nat) : List Nat := sortNat (l.filter (· < 2000))
+
 def obs (x : St) : String :=
   let tree := (if x.present then "present" else if x.requested then "requested" else "absent") ++ (if x.armed then "+armed" else "")
-  s!"tree={tree} live={Util.showNatList (sortNat x.live)} done={Util.showNatList (sortNat x.doneToks)} constructed={Util.showNatList (sortNat x.constructed)} handed={x.handed.length}"
+  s!"tree={tree} live={Util.showNatList (shown x.live)} done={Util.showNatList (shown x.doneToks)} constructed={Util.showNatList (shown x.constructed)} handed={x.handed.length}"
 
 def findThr (x : St) (tok m : Nat) : Option Nat :=
   (List.range x.thr.length).find? fun i => match x.thr[i]? with
@@ -259,6 +263,14 @@ def relook (x : St) : St :=
   (List.range x.thr.length).foldl (fun acc i => match acc.thr[i]? with
     | some t => if t.pc = .flushed then (C11.step acc (.thread i)).getD acc else acc
     | none => acc) x
+
+/-- one run of `churn`: `CreateProtocol` (listed, tree registered, constructor) and `Done()` -/
+def churn1 (x : St) (tok : Nat) : St :=
+  match C11.step x (.localStart tok) with
+  | some x1 =>
+    let x2 := relook (finish x1 (x1.thr.length - 1) false)
+    (C11.step x2 (.done tok)).getD x2
+  | none => x
 
 /-- ops: `arrive <tok> <m>` (thread runs to its hook point after the lookup), `thread <tok> <m>`
 (the `transmitMux` region to its end), `done <tok>`, `wait` (longer than the grace period: the
@@ -356,6 +368,15 @@ def step (st : State) (toks : List String) : State × String :=
   -- the model does not follow handlers (C05 does); the harness's oracle watches them
   | ["hold", tok] => if tok.toNat?.isSome then (st, "ok") else (st, "bad-op")
   | ["release", tok] => if tok.toNat?.isSome then (st, "ok") else (st, "bad-op")
+  -- `churn n`: a busy server — n further ordinary runs on the tree are started locally and finish, one after the
+  -- other (tokens 2000, 2001, …; not listed in the observation)
+  | ["churn", n] =>
+    match n.toNat? with
+    | some n =>
+      if n > 4000 then (st, "bad-op") else
+      let x' := (List.range n).foldl (fun acc j => churn1 acc (2000 + st.churned + j)) x
+      ({ st with s := x', churned := st.churned + n }, obs x')
+    | none => (st, "bad-op")
   | ["localstart", tok] =>
     match tok.toNat? with
     | some tok =>
